@@ -75,7 +75,9 @@ def _isinstance(v, c) -> bool:
     if isinstance(c, type):
         if c is int and isinstance(v, bool):
             return True
-        return isinstance(v, c) and not isinstance(v, Stub)
+        if isinstance(v, Stub):
+            return any(issubclass(t, c) for t in vars(v).get("_types", ()))       # a stub standing for an instance of the listed classes
+        return isinstance(v, c)
     raise Unsupported("isinstance against an unknown class")
 
 
@@ -172,7 +174,14 @@ def ev(n: ast.AST, env: dict[str, Any], funcs: dict[str, ast.FunctionDef] | None
         f = ops.get(type(n.op))
         if f is None:
             raise Unsupported(f"operator {type(n.op).__name__}")
-        return f()
+        try:
+            return f()
+        except (TypeError, OverflowError, ZeroDivisionError, ValueError) as e:
+            plain = (int, float, str, bool, _dt.timedelta, _dt.datetime, _dt.date, _dt.time)
+            if isinstance(a, plain) and isinstance(b, plain):
+                # what the analysed code itself raises here (aware - naive, 1 / 0): an outcome, not a limit of the interpreter
+                raise Raised(f"raise reached: {type(e).__name__}: {e}", type(e).__name__) from None
+            raise
     if isinstance(n, ast.BoolOp):
         v = None
         for x in n.values:
